@@ -38,6 +38,7 @@ type Engine struct {
 	notes     map[string]bool
 	repoDir   string
 	srcCache  map[string][]byte
+	canon     map[string]string
 }
 
 func (e *Engine) note(format string, args ...interface{}) {
